@@ -310,7 +310,7 @@ def guard_atoms(test: ast.AST, env: Dict[str, Any], alg: NumAlgebra, defs: Optio
                 raise NotAThreshold(f"`{text}`: a wrapped quantity is compared with a non-constant")
             v = const_value(b)
             try:
-                for f in reversed(inv):
+                for f in inv:  # outermost wrapper first
                     v = f(v)
             except Exception as ex:
                 raise NotAThreshold(f"`{text}`: {ex}")
